@@ -466,8 +466,8 @@ func childC11(args []string) {
 		o := h.observe(ctx, via, c.PID, c.Msg, line, false)
 		out.add("inputs", 1)
 		out.add("class:"+strings.SplitN(c.Class, ":", 2)[0], 1)
-		if len(c.Msg) > out.stats["longest_line"] {
-			out.stats["longest_line"] = len(c.Msg)
+		if len(c.Msg) > out.stats["max:longest_line"] {
+			out.stats["max:longest_line"] = len(c.Msg)
 		}
 		seenPID, seenMsg := c.PID, c.Msg
 		if via == "syslog" {
@@ -582,8 +582,8 @@ func checkC11(r *vlib.Run) int {
 		emitted += res.stats["inputs_emitting_event"]
 		forwarded += res.stats["inputs_forwarding_login"]
 		crashes += res.crashes
-		if res.stats["longest_line"] > longest {
-			longest = res.stats["longest_line"]
+		if res.stats["max:longest_line"] > longest {
+			longest = res.stats["max:longest_line"]
 		}
 		for k, v := range res.stats {
 			if strings.HasPrefix(k, "class:") {
